@@ -48,7 +48,12 @@ func execGov(run *kernel.Run) {
 			h := s.Blocks[len(s.Blocks)-1].Block.Hash()
 			sig = append(sig, h[:]...)
 		case "bad":
+			if nd := s.lagNode(); nd != nil && s.Nodes[int(abs(st.Arg(2)))%len(s.Nodes)] == nd {
+				continue // the lagging follower only takes part through catchup steps
+			}
 			s.badSubmission(st)
+		case "catchup":
+			s.catchup(st)
 		case "restart":
 			nd := s.Nodes[int(abs(st.Arg(0)))%len(s.Nodes)]
 			nd.Close()
@@ -63,9 +68,12 @@ func execGov(run *kernel.Run) {
 				run.Logf("skip unknown step %v", st)
 			}
 		}
-		if run.Failed() && len(run.Violations) > 20 {
+		if s.Dead || (run.Failed() && len(run.Violations) > 20) {
 			return
 		}
+	}
+	if s.lagNode() != nil && !s.Dead && !run.Failed() {
+		s.catchup(kernel.Step{Op: "catchup", A: []int64{0}})
 	}
 	if run.Probes["tx_succeeded"] > 0 && run.Probes["tx_failed"] > 0 {
 		run.Nontrivial(sig)
@@ -172,9 +180,19 @@ func (s *Sim) commitBlock(m *Model, nonce uint64) bool {
 	run.State(append(res.Hash[:], byte(len(res.CrossHashes))))
 	// followers
 	for _, f := range s.Nodes[1:] {
+		if f == s.lagNode() {
+			continue
+		}
 		for int(f.Height()) < len(s.Blocks) {
 			b := s.Blocks[f.Height()]
-			if err := f.Sync(b.Block, b.Result.MerkleRoot); err != nil {
+			before := f.Height()
+			err := f.Sync(b.Block, b.Result.MerkleRoot)
+			if err == nil && f.Height() == before {
+				run.Fail("C13", "valid-successor-silently-not-applied", "follower %s returned success for block %d but did not apply it", f.Name, b.Block.Header.Height)
+				s.Dead = true
+				return false
+			}
+			if err != nil {
 				if s.badSince > 0 {
 					run.Fail("C14", "honest-block-rejected-after-rejected-submission", "follower %s refuses honest block %d after rejected submissions: %v", f.Name, b.Block.Header.Height, err)
 				} else {
@@ -184,7 +202,7 @@ func (s *Sim) commitBlock(m *Model, nonce uint64) bool {
 			}
 		}
 		sr, _ := f.L.GetStateMerkleRoot(blk.Header.Height)
-		if sr != res.MerkleRoot {
+		if f != s.lagNode() && sr != res.MerkleRoot {
 			run.Fail("C16", "replica-state-root-differs", "follower %s state root %x != producer %x at %d", f.Name, sr, res.MerkleRoot, blk.Header.Height)
 		}
 	}
@@ -199,6 +217,9 @@ func (s *Sim) checkProofs(rec *BlockRec) {
 	run := s.R
 	h := rec.Block.Header.Height
 	for _, nd := range s.Nodes {
+		if nd.Height() != h {
+			continue // lagging follower: checked when it has caught up
+		}
 		nd.Use()
 		root, err := nd.L.GetCrossStateRoot(h)
 		if err != nil {
@@ -348,16 +369,19 @@ func init() {
 	}
 	base := "seeded history of native-contract transactions (governance, side-chain registry, relayer registry, vote-router imports, privileged ops with right/wrong witnesses) cut into blocks on a producer with 0-2 followers and clean restarts; every transaction's pre/post state is observed by executing every prefix of its block on the real ledger; "
 	defs := []def{
-		{"C15", base + "oracle: a failed transaction leaves no writes, cross-chain records or events, and removing the failed transactions leaves the block's state digest unchanged. non-trivial = run with succeeding and failing transactions; distinct by chain of block hashes. 12% of the calls are failed by hook H3 after their handler produced all writes, events and cross-chain records", map[string]int{"ff": 12, "import": 8, "chain": 4, "cand": 3, "relayer": 2, "node": 2, "priv": 2, "sig": 1, "burst": 1}, []string{"block_mixing_success_and_failure", "tx_failed", "tx_succeeded", "forced_failure_after_handler"}},
+		{"C15", base + "oracle: a failed transaction leaves no writes, cross-chain records or events, and removing the failed transactions leaves the block's state digest unchanged. non-trivial = run with succeeding and failing transactions; distinct by chain of block hashes. 12% of the calls are failed by hook H3 after their handler produced all writes, events and cross-chain records", map[string]int{"ff": 12, "import": 8, "chain": 4, "cand": 3, "relayer": 2, "node": 2, "priv": 2, "sig": 1, "burst": 1, "delonly": 4}, []string{"block_mixing_success_and_failure", "tx_failed", "tx_succeeded", "forced_failure_after_handler", "forced_failure_of_delete_only_call"}},
 		{"C32", base + "oracle: per (action, request) the set of distinct witnessed approvers; the action takes effect iff the number of them that are consensus validators in the pre-state reaches ceil(2N/3). non-trivial/distinct as C15", map[string]int{"chain": 6, "cand": 5, "relayer": 4, "node": 3, "import": 1}, []string{"approval_fired_exactly_at_threshold", "approval_by_non_validator"}},
 		{"C33", base + "oracle: after an approval takes effect its request is no longer pending and no later approval round applies it again without a fresh request", map[string]int{"chain": 6, "cand": 4, "relayer": 5, "node": 1, "import": 1}, []string{"approval_took_effect:approvechain", "approval_took_effect:approvecand", "approval_took_effect:approverelayer"}},
-		{"C34", base + "oracle: pool invariants after every transaction (>=4 active, unique keys and indices, blacklisted keys cannot register) and epoch-change rules (view+1, active->consensus, quitting/black dropped, at most one per block)", map[string]int{"cand": 6, "node": 6, "priv": 3, "chain": 1, "import": 1, "relayer": 1}, []string{"epoch_change"}},
+		{"C34", base + "oracle: pool invariants after every transaction (>=4 active, unique keys and indices, blacklisted keys cannot register) and epoch-change rules (view+1, active->consensus, quitting/black dropped, at most one per block)", map[string]int{"cand": 6, "node": 6, "priv": 3, "chain": 1, "import": 1, "relayer": 1, "twoepochs": 4}, []string{"epoch_change", "blacknode_rejected_second_epoch_in_block"}},
 		{"C35", base + "oracle: the registered record of a chain changes only by an approval taking effect, equals the approved request, and updates/removals stem from a request of the registered owner of the current registration", map[string]int{"chain": 10, "import": 2, "cand": 1, "relayer": 1, "node": 1, "priv": 1}, []string{"approval_took_effect:approvechain", "approval_took_effect:approveupd", "approval_took_effect:approvequit"}},
 	}
 	badSteps := func(kinds []int) func(rng *kernel.RNG, steps []kernel.Step) []kernel.Step {
 		return func(rng *kernel.RNG, steps []kernel.Step) []kernel.Step {
 			var out []kernel.Step
 			for _, st := range steps {
+				if st.Op == "block" && rng.Chance(0.12) {
+					out = append(out, S("catchup", int64(rng.Intn(3)), int64(rng.Intn(6)), int64(rng.Intn(10)), int64(rng.Intn(1000))))
+				}
 				if st.Op == "block" {
 					for rng.Chance(0.45) {
 						out = append(out, S("bad", int64(kinds[rng.Intn(len(kinds))]), int64(rng.Intn(3)), int64(rng.Intn(3)), int64(rng.Intn(1000))))
@@ -397,6 +421,12 @@ func init() {
 				pl := govPlan(rng, tier, d.w, extras[d.id])
 				if d.w["reexec"] > 0 {
 					pl.Cfg["reexec"] = int64(d.w["reexec"])
+				}
+				if d.id == "C13" || d.id == "C14" {
+					pl.Cfg["lag"] = int64(rng.Intn(2))
+					if pl.Cfg["lag"] == 1 && pl.Cfg["followers"] == 0 {
+						pl.Cfg["followers"] = 1
+					}
 				}
 				if d.w["strict"] > 0 && rng.Chance(0.5) {
 					pl.Cfg["net"], pl.Cfg["legacyheight"] = 1, 0
